@@ -166,6 +166,11 @@ partial def loop (h : IO.FS.Stream) (lastKey : String) (last : Option Built) : I
   if line.trimAscii.toString.isEmpty || line.startsWith "#" then loop h lastKey last
   else
     let t := tokens line
+    -- types without a byte model: the implementation is checked against the read-back oracle only
+    if ["dec", "ts", "tstz", "iv", "vec"].contains (t.getD 1 "") then
+      IO.println "unmodelled"
+      loop h lastKey last
+      return
     let key := buildKey t
     let b := if key == lastKey && last.isSome then last else build t
     match b with
